@@ -9,7 +9,7 @@ from . import C14
 
 ID = 'C03'
 PROFILES = ['dev']
-BOUNDS = {'program matrix': 'every statement / expression form (51 one-operand, 38 two-operand; X is printed after every form) with X of every kind {undefined name, mysterious, null, boolean, number, string, array, empty array, function} and the other operand of kind {number, string, array, null}: 1827 programs parsed by the real parser, all literals symbolic, executed by the real interpreter and by the reference interpreter; written lines and outcome (success / runtime error) compared; forms the reference leaves undefined (cut / join / cast statements, array == array, string indexing) are kernel-level only',
+BOUNDS = {'short texts': 'table-short-strings jobs: the operator tables with string operands drawn from %d concrete texts (all texts of <= 2 characters over {1, space, x, -, .} + edge spellings of numbers), real number parsing' % 48, 'program matrix': 'every statement / expression form (51 one-operand, 38 two-operand; X is printed after every form) with X of every kind {undefined name, mysterious, null, boolean, number, string, array, empty array, function} and the other operand of kind {number, string, array, null}: 1827 programs parsed by the real parser, all literals symbolic, executed by the real interpreter and by the reference interpreter; written lines and outcome (success / runtime error) compared; forms the reference leaves undefined (cut / join / cast statements, array == array, string indexing) are kernel-level only',
           'operators': 'all 13 binary operators x all 36 kind pairs, payloads symbolic (all doubles, all strings, both booleans)',
           'arrays': 'sequence length 0..=2, scalar elements, dictionary 0..=1 entries (array == array is checked by C14 laws, not by the table)',
           'list operands': 'rhs lists of 2 and 3 thunks (arrays <= 1 element without dictionary in quick, <= 2 with dictionary in thorough), each yielding a lazily symbolic value or failing; compared with the nested single-operator evaluation (same real code), including which thunks ran',
@@ -35,7 +35,9 @@ def view(vm, v):
     if k in (U, N): return V(k)
     p = v.fields[0]
     if k in (B, NUM): return V(k, p)
-    if k == S: return V(k, p.box.cell.v.term)
+    if k == S:
+        t = p.box.cell.v
+        return V(k, t.term if isinstance(t, SymStr) else to_sym(t))
     arr = p.box.cell.v
     return V(A, (len(arr.fields[0].fields[0].items), arr))
 
@@ -189,7 +191,9 @@ def same_as_ref(vm, real, want):
     p = real.fields[0]
     if k == B: return Bt(p) == Bt(want.p)
     if k == NUM: return F(p) == F(want.p)           # SMT `=` on floats: NaN = NaN, +0 != -0 (bit-exact up to the NaN payload)
-    if k == S: return p.box.cell.v.term == Sv(want.p)
+    if k == S:
+        t = p.box.cell.v
+        return (t.term if isinstance(t, SymStr) else to_sym(t)) == Sv(want.p)
     return True
 
 
@@ -201,8 +205,25 @@ def cex_of(vm, a, b, op, extra=None):
     return d
 
 
+# companion domain with *real* number parsing and real character-level string work: every text of <= 2 characters over
+# {1, space, x, -, .} and spellings at the edge of what parses (exponent, inf / nan words, sign, surrounding blanks, CR / LF / TAB, a
+# non-ASCII digit).  The texts are concrete (the choice is a fork), the other operand stays symbolic.
+SHORT_TEXTS = [''] + [a for a in '1 x-.'] + [a + b for a in '1 x-.' for b in '1 x-.'] + \
+    ['1e1', 'inf', 'nan', 'NaN', 'infinity', '+1', '1\r', '\t1', '1\n', '0x1', '1_0', '\u0661', ' 1 ', 'true', 'null', '-0', '1.5']
+
+
+def short_concrete_string(vm, name):
+    return bstr_from_py(SHORT_TEXTS[vm.fork(len(SHORT_TEXTS), note=f'{name}.text')])
+
+
+def mk_operand(vm, name, kinds):
+    if getattr(vm, 'str_mode', 'opaque') == 'bounded':
+        return sym_val(vm, name, arr_max=1, depth=1, dict_max=0, kinds=kinds, str_factory=short_concrete_string)
+    return C14.mk(vm, name, kinds)
+
+
 def h_table(vm, mir, ops, ka, kb=None):
-    a = C14.mk(vm, 'a', [ka] if ka is not None else None); b = C14.mk(vm, 'b', [kb] if kb is not None else None)
+    a = mk_operand(vm, 'a', [ka] if ka is not None else None); b = mk_operand(vm, 'b', [kb] if kb is not None else None)
     va = view(vm, a); vb = view(vm, b)
     op = ops[vm.fork(len(ops), note='op')] if len(ops) > 1 else ops[0]
     vm.describe = cex_of(vm, a, b, op)
@@ -355,6 +376,10 @@ def jobs(ctx, tier):
     for g in GROUPS:
         for ka in range(6):
             js.append(Job(f'table/{"+".join(g)}/{KINDS[ka]}', h_table, (mir, g, ka), witness=[f'table-{o}' for o in g], weight=3 if ka == 5 else 1))
+    # the same tables with one operand a short concrete text (real parsing / trimming / comparison of characters)
+    for g in GROUPS:
+        for ka, kb in ((4, None), (0, 4), (1, 4), (2, 4), (3, 4), (5, 4)):
+            js.append(Job(f'table-short-strings/{"+".join(g)}/{KINDS[ka]}-{"any" if kb is None else KINDS[kb]}', h_table, (mir, g, ka, kb), witness=[f'table-{o}' for o in g], str_mode='bounded', weight=4))
     fold_ops = BINOPS if tier == 'thorough' else ['Plus', 'Minus', 'And', 'Nor', 'Eq', 'Less']
     for op in fold_ops:
         js.append(Job(f'listfold/{op}/2', h_listfold, (mir, op, 2), witness=['fold-done'], weight=4))
